@@ -16,8 +16,8 @@ SPECS = [
     Spec(GROUP, "ntag_auth_key", NXP, "NTAG21x._authenticate", [("password", BYTES)], stmts=(0, 2), result=["key"],
          note="cut: password length check and key selection (PWD + PACK) in front of the PWD_AUTH command"),
     Spec(GROUP, "ntag_auth_cmd", NXP, "NTAG21x._authenticate", [("key", BYTES)], expr='b"\\x1B" + key[0:4]',
-         note="cut: the PWD_AUTH command"),
-    Spec(GROUP, "ntag_auth_ok", NXP, "NTAG21x._authenticate", [("rsp", BYTES), ("key", BYTES)], expr="rsp == key[4:6]",
+         note="partial cut (not `whole`): the complete argument of `self.transceive(..)`; cut: the PWD_AUTH command"),
+    Spec(GROUP, "ntag_auth_ok", NXP, "NTAG21x._authenticate", [("rsp", BYTES), ("key", BYTES)], whole=True, expr="rsp == key[4:6]",
          note="cut: comparison of the answer with PACK"),
     Spec(GROUP, "ntag_protect_key", NXP, "NTAG21x._protect_with_password",
          [("password", BYTES), ("read_protect", BOOL), ("protect_from", INT)], stmts=(0, 2), result=["key"],
@@ -27,28 +27,28 @@ SPECS = [
          note="cut: AUTH0 and the PROT bit of ACCESS in the configuration pages read from the tag (`cfg` after "
               "`cfg[8:14] = key`)"),
     Spec(GROUP, "ntag_protect_page", NXP, "NTAG21x._protect_with_password", [("cfg", BYTES), ("i", INT)], expr="cfg[i*4:(i+1)*4]",
-         note="cut: the data of the i-th WRITE"),
+         note="partial cut (not `whole`): second argument of the effectful call `self.write(..)`; cut: the data of the i-th WRITE"),
     Spec(GROUP, "ntag_protect_pageno", NXP, "NTAG21x._protect_with_password", [("i", INT)], binds=[("self._cfgpage", "cfgpage", INT)],
-         expr="self._cfgpage + i", note="cut: the page number of the i-th WRITE"),
+         expr="self._cfgpage + i", note="partial cut (not `whole`): first argument of the effectful call `self.write(..)`; cut: the page number of the i-th WRITE"),
     Spec(GROUP, "ntag_cc_valid_pw", NXP, "NTAG21x._protect_with_password", [("ndef_cc", BYTES)],
-         expr="ndef_cc[0] == 0xE1 and ndef_cc[1] & 0xF0 == 0x10", note="cut: capability container test before the access byte is changed"),
-    Spec(GROUP, "ntag_cc_flags", NXP, "NTAG21x._protect_with_password", [("read_protect", BOOL)], expr="0x88 if read_protect else 0x08",
+         whole=True, expr="ndef_cc[0] == 0xE1 and ndef_cc[1] & 0xF0 == 0x10", note="cut: capability container test before the access byte is changed"),
+    Spec(GROUP, "ntag_cc_flags", NXP, "NTAG21x._protect_with_password", [("read_protect", BOOL)], whole=True, expr="0x88 if read_protect else 0x08",
          note="cut: proprietary access flags OR-ed into CC byte 3"),
     Spec(GROUP, "ntag_cc_valid", NXP, "NTAG21x._protect_with_lockbits", [("ndef_cc", BYTES)],
-         expr="ndef_cc[0] == 0xE1 and ndef_cc[1] >> 4 == 1", note="cut: capability container test of the lock bit protection"),
-    Spec(GROUP, "ntag_cfglck", NXP, "NTAG21x._protect_with_lockbits", [("cfgdata", BYTES)], expr="cfgdata[4] & 0x40 == 0",
+         whole=True, expr="ndef_cc[0] == 0xE1 and ndef_cc[1] >> 4 == 1", note="cut: capability container test of the lock bit protection"),
+    Spec(GROUP, "ntag_cfglck", NXP, "NTAG21x._protect_with_lockbits", [("cfgdata", BYTES)], whole=True, expr="cfgdata[4] & 0x40 == 0",
          note="cut: CFGLCK bit test"),
     Spec(GROUP, "ntag_dynlock_page", NXP, "NTAG21x._protect_with_lockbits", [], binds=[("self._cfgpage", "cfgpage", INT)],
-         expr="self._cfgpage - 1", note="cut: page of the dynamic lock bytes"),
+         expr="self._cfgpage - 1", note="partial cut (not `whole`): first argument of the effectful call `self.write(..)`; cut: page of the dynamic lock bytes"),
     # ---- Mifare Ultralight C
     Spec(GROUP, "ulc_auth_key", NXP, "MifareUltralightC._authenticate", [("password", BYTES)], stmts=(0, 2), result=["key"],
          note="cut: key selection and length check in front of the AUTHENTICATE command"),
     Spec(GROUP, "ulc_protect_key", NXP, "MifareUltralightC._protect_with_password",
          [("password", BYTES), ("read_protect", BOOL), ("protect_from", INT)], stmts=(0, 2), result=["key"]),
     Spec(GROUP, "ulc_auth0", NXP, "MifareUltralightC._protect_with_password", [("protect_from", INT)],
-         expr='bytearray([max(3, min(protect_from, 0x30))]) + b"\\0\\0\\0"', note="cut: data of the AUTH0 page write"),
+         expr='bytearray([max(3, min(protect_from, 0x30))]) + b"\\0\\0\\0"', note="partial cut (not `whole`): the complete second argument of the effectful call `self.write(42, ..)`; cut: data of the AUTH0 page write"),
     Spec(GROUP, "ulc_auth1", NXP, "MifareUltralightC._protect_with_password", [("read_protect", BOOL)],
-         expr='b"\\0\\0\\0\\0" if read_protect else b"\\x01\\0\\0\\0"', note="cut: data of the AUTH1 page write"),
+         expr='b"\\0\\0\\0\\0" if read_protect else b"\\x01\\0\\0\\0"', note="partial cut (not `whole`): the complete second argument of the effectful call `self.write(43, ..)`; cut: data of the AUTH1 page write"),
     # ---- FeliCa Lite / Lite-S (tt3_sony.py)
     Spec(GROUP, "lite_mac_key", SONY, "FelicaLite.generate_mac",
          [("data", BYTES), ("key", BYTES), ("iv", BYTES), ("flip_key", BOOL)], stmts=(0, 2), result=["key"],
@@ -56,35 +56,38 @@ SPECS = [
               "triple DES call are not translated"),
     Spec(GROUP, "lite_auth_key", SONY, "FelicaLite._authenticate", [("password", BYTES)], stmts=(0, 2), result=["key"],
          note="cut: password length check and card key selection"),
-    Spec(GROUP, "lite_protect_key", SONY, "FelicaLite._protect", [("password", BYTES)], expr='password[0:16] if password else b"\\0"*16',
+    Spec(GROUP, "lite_protect_key", SONY, "FelicaLite._protect", [("password", BYTES)], whole=True, expr='password[0:16] if password else b"\\0"*16',
          note="cut: card key selection (password is not None)"),
     Spec(GROUP, "lite_mc_mask", SONY, "FelicaLite._protect", [("protect_from", INT)], nonneg=["protect_from"],
-         expr='pack("<H", 0x7FFF ^ (2**14 - 2**protect_from))',
+         whole=True, expr='pack("<H", 0x7FFF ^ (2**14 - 2**protect_from))',
          note="cut: read/write permission word of the MC block; precondition protect_from >= 0 (checked at the top of `_protect`)"),
     Spec(GROUP, "lites_mc_mask", SONY, "FelicaLiteS._protect", [("protect_from", INT)], nonneg=["protect_from"],
-         expr='pack("<H", 2**14 - 2**protect_from)', nth=0,
+         whole=True, expr='pack("<H", 2**14 - 2**protect_from)', nth=0,
          note="cut: read protection mask written to MC bytes 6..7 (first occurrence); precondition protect_from >= 0"),
     Spec(GROUP, "lites_mc_mask_wr", SONY, "FelicaLiteS._protect", [("protect_from", INT)], nonneg=["protect_from"],
-         expr='pack("<H", 2**14 - 2**protect_from)', nth=1,
+         whole=True, expr='pack("<H", 2**14 - 2**protect_from)', nth=1,
          note="cut: write protection mask written to MC bytes 8..11 (second occurrence); precondition protect_from >= 0"),
-    Spec(GROUP, "lites_ckv", SONY, "FelicaLiteS._protect", [("ckv", BYTES)], expr='min(unpack("<H", ckv[0:2])[0] + 1, 0xffff)',
+    Spec(GROUP, "lites_ckv", SONY, "FelicaLiteS._protect", [("ckv", BYTES)], whole=True, expr='min(unpack("<H", ckv[0:2])[0] + 1, 0xffff)',
          note="cut: next card key version"),
     Spec(GROUP, "lite_format_nmaxb", SONY, "FelicaLite._format", [("mc", BYTES)], stmts=[6, 7], result=["nmaxb"],
          note="cut: number of writeable data blocks from the MC permission bits"),
-    Spec(GROUP, "lite_format_mc0", SONY, "FelicaLite._format", [("mc", BYTES)], expr="mc[0] & 0x01 != 0x01"),
-    Spec(GROUP, "lite_format_version", SONY, "FelicaLite._format", [("version", INT)], expr="version >> 4 != 1"),
-    Spec(GROUP, "lites_flip", SONY, "FelicaLiteS.write_with_mac", [("sk", BYTES)], expr="sk[8:16] + sk[0:8]",
+    Spec(GROUP, "lite_format_mc0", SONY, "FelicaLite._format", [("mc", BYTES)], whole=True, expr="mc[0] & 0x01 != 0x01"),
+    Spec(GROUP, "lite_format_ver_cond", SONY, "FelicaLite._format", [("version", INT)], ret=BOOL, whole=True,
+         expr="version and version >> 4 != 1", note="cut: the complete version test (truth value of the `if` test)"),
+    Spec(GROUP, "lite_format_version", SONY, "FelicaLite._format", [("version", INT)], expr="version >> 4 != 1",
+         note="partial cut (not `whole`): second operand of the version test; the complete test is lite_format_ver_cond"),
+    Spec(GROUP, "lites_flip", SONY, "FelicaLiteS.write_with_mac", [("sk", BYTES)], whole=True, expr="sk[8:16] + sk[0:8]",
          note="cut: body of the nested function `flip`"),
     Spec(GROUP, "lites_mac_data", SONY, "FelicaLiteS.write_with_mac", [("wcnt", BYTES), ("block", INT), ("data", BYTES)],
-         expr='wcnt + b"\\x00" + bytearray([block]) + b"\\x00\\x91\\x00" + data', note="cut: the octets the write MAC is computed over"),
-    Spec(GROUP, "lites_rw_bits", SONY, "FelicaLiteS.NDEF._read_attribute_data", [("rw_bits", INT)], expr="bool(rw_bits & 0x3ff == 0x3ff)"),
+         whole=True, expr='wcnt + b"\\x00" + bytearray([block]) + b"\\x00\\x91\\x00" + data', note="cut: the octets the write MAC is computed over"),
+    Spec(GROUP, "lites_rw_bits", SONY, "FelicaLiteS.NDEF._read_attribute_data", [("rw_bits", INT)], whole=True, expr="bool(rw_bits & 0x3ff == 0x3ff)"),
     Spec(GROUP, "lite_nbr", SONY, "FelicaLite.NDEF._read_attribute_data", [], binds=[("attributes['nbr']", "nbr", INT)],
-         expr="min(attributes['nbr'], 3)", note="cut: blocks per read when a MAC block is appended"),
+         whole=True, expr="min(attributes['nbr'], 3)", note="cut: blocks per read when a MAC block is appended"),
     # ---- Broadcom Topaz (tt1_broadcom.py)
-    Spec(GROUP, "topaz_wipe", BCM, "Topaz._format", [("wipe", INT)], expr="bytearray([wipe & 0xFF]) * 90"),
-    Spec(GROUP, "topaz_version", BCM, "Topaz._format", [("version", INT)], expr="version >> 4 == 1"),
-    Spec(GROUP, "topaz512_wipe1", BCM, "Topaz512._format", [("wipe", INT)], expr="bytearray([wipe & 0xFF]) * 80"),
-    Spec(GROUP, "topaz512_wipe2", BCM, "Topaz512._format", [("wipe", INT)], expr="bytearray([wipe & 0xFF]) * 384"),
+    Spec(GROUP, "topaz_wipe", BCM, "Topaz._format", [("wipe", INT)], whole=True, expr="bytearray([wipe & 0xFF]) * 90"),
+    Spec(GROUP, "topaz_version", BCM, "Topaz._format", [("version", INT)], whole=True, expr="version >> 4 == 1"),
+    Spec(GROUP, "topaz512_wipe1", BCM, "Topaz512._format", [("wipe", INT)], whole=True, expr="bytearray([wipe & 0xFF]) * 80"),
+    Spec(GROUP, "topaz512_wipe2", BCM, "Topaz512._format", [("wipe", INT)], whole=True, expr="bytearray([wipe & 0xFF]) * 384"),
     Spec(GROUP, "topaz_hrom", BCM, "activate", [], binds=[("target.rid_res", "rid_res", BYTES)], stmts=[0], result=["hrom"],
          note="cut: the header ROM octets that select the class"),
     # ---- functions that needed slice assignment / step -1 slices
@@ -94,12 +97,13 @@ SPECS = [
     Spec(GROUP, "ulc_key_split", NXP, "MifareUltralightC._protect_with_password", [("key", BYTES)], stmts=[3], result=["key1", "key2"],
          note="cut: the key halves as the tag stores them (each reversed)"),
     Spec(GROUP, "lite_rev_halves", SONY, "FelicaLite._protect", [("key", BYTES)], expr="key[7::-1] + key[15:7:-1]",
-         note="cut: card key block (CK1 | CK2, each half reversed)"),
+         note="partial cut (not `whole`): the complete first argument of `self.write_without_mac(.., 0x87)`; cut: card key block (CK1 | CK2, each half reversed)"),
     Spec(GROUP, "lite_chal", SONY, "FelicaLite._authenticate", [("rc", BYTES)], expr="rc[7::-1] + rc[15:7:-1]",
-         note="cut: random challenge block (RC1 | RC2, each half reversed)"),
-    Spec(GROUP, "lites_key_block", SONY, "FelicaLiteS._protect", [("key", BYTES)], expr="key[7::-1] + key[15:7:-1]"),
+         note="partial cut (not `whole`): the complete first argument of `self.write_without_mac(.., 0x80)`; cut: random challenge block (RC1 | RC2, each half reversed)"),
+    Spec(GROUP, "lites_key_block", SONY, "FelicaLiteS._protect", [("key", BYTES)], expr="key[7::-1] + key[15:7:-1]",
+         note="partial cut (not `whole`): the complete first argument of `self.write_without_mac(.., 0x87)`"),
     Spec(GROUP, "lites_ckv_block", SONY, "FelicaLiteS._protect", [("ckv", INT)], expr='pack("<H", ckv) + b"\\0" * 14',
-         note="cut: card key version block"),
+         note="partial cut (not `whole`): the complete first argument of `self.write_without_mac(.., 0x86)`; cut: card key version block"),
     Spec(GROUP, "lite_format_attr", SONY, "FelicaLite._format", [("version", INT), ("nmaxb", INT)], stmts=[8, 9, 10],
          result=["attribute_data"], note="cut: the attribute block written by `format()` (Nbr 4, Nbw 1, RWFlag 1)"),
     Spec(GROUP, "topaz_format", BCM, "Topaz._format", [("tag_memory", BYTES), ("wipe", OPT(INT))], stmts=[1, 3], result=["tag_memory"],
@@ -121,12 +125,12 @@ BRIDGE = {
         "lite_protect_key_bridge", "gen_lite_keys_agree", "lite_mc_mask_bridge", "lite_mc_mask_beyond",
         "lites_mc_mask_bridge", "lites_mc_mask_wr_bridge", "gen_mask_bits", "lites_ckv_bridge",
         "lite_format_nmaxb_bridge", "gen_lite_format_nmaxb_sound", "lite_format_mc0_bridge",
-        "lite_format_version_bridge", "lites_flip_bridge", "lites_mac_data_bridge", "lites_rw_bits_bridge",
-        "lite_nbr_bridge", "topaz_wipe_bridge", "topaz512_wipe1_bridge", "topaz512_wipe2_bridge", "gen_formatTopaz",
-        "topaz_version_bridge", "topaz_hrom_bridge", "lite_rev_halves_bridge", "lite_chal_bridge",
-        "lites_key_block_bridge", "ulc_key_split_bridge", "gen_key_block_words", "lites_ckv_block_bridge",
-        "ntag_protect_cfg_bridge", "gen_ntag_protect", "lite_format_attr_bridge", "topaz_format_bridge",
-        "topaz512_format_bridge")],
+        "lite_format_ver_cond_bridge", "lite_format_version_bridge", "lites_flip_bridge", "lites_mac_data_bridge",
+        "lites_rw_bits_bridge", "lite_nbr_bridge", "topaz_wipe_bridge", "topaz512_wipe1_bridge",
+        "topaz512_wipe2_bridge", "gen_formatTopaz", "topaz_version_bridge", "topaz_hrom_bridge",
+        "lite_rev_halves_bridge", "lite_chal_bridge", "lites_key_block_bridge", "ulc_key_split_bridge",
+        "gen_key_block_words", "lites_ckv_block_bridge", "ntag_protect_cfg_bridge", "gen_ntag_protect",
+        "lite_format_attr_bridge", "topaz_format_bridge", "topaz512_format_bridge")],
     "properties": ["C01", "C03", "C20"],
 }
 SMALL_INT = ("lite_mc_mask", "lites_mc_mask", "lites_mc_mask_wr")      # 2**protect_from is materialised
@@ -176,7 +180,7 @@ def inputs(rng, sp):
         out += [([_b(rng, 16)], []) for _ in range(60)] + [([_b(rng, k)], []) for k in (0, 1, 2)]
     if n == "lite_format_mc0":
         out += [([bytes([v])], []) for v in range(0, 8)] + [([b""], [])]
-    if n in ("lite_format_version", "topaz_version"):
+    if n in ("lite_format_version", "topaz_version", "lite_format_ver_cond"):
         out += [([v], []) for v in (0, 1, 0x0F, 0x10, 0x11, 0x1F, 0x20, 0xFF, 0x100, 0x110)]
     if n == "lites_flip":
         out += [([_b(rng, k)], []) for k in (16, 16, 16, 0, 8, 15, 17, 24)]
@@ -235,6 +239,10 @@ MUTATIONS = [
     ("lites_flip", "flip halves", "sk[8:16] + sk[0:8]", "sk[0:8] + sk[8:16]"),
     ("lites_mac_data", "MAC block number", 'b"\\x00\\x91\\x00"', 'b"\\x00\\x90\\x00"'),
     ("topaz_wipe", "wipe length", "* 90", "* 91"),
+    ("ntag_cfglck", "condition gains an operand", "if cfgdata[4] & 0x40 == 0:", "if cfgdata[4] & 0x40 == 0 or cfgdata[4] & 0x80:"),
+    ("lite_format_mc0", "condition gains an operand", "if mc[0] & 0x01 != 0x01:", "if mc[0] & 0x01 != 0x01 and mc[1] != 0xFF:"),
+    ("lite_format_ver_cond", "truthiness test changed", "if version and version >> 4 != 1:", "if version is not None and version >> 4 != 1:"),
+    ("topaz_version", "condition gains an operand", "if version >> 4 == 1:", "if version >> 4 == 1 or version == 0:"),
     ("ntag_protect_cfg", "PWD/PACK position", "cfg[8:14] = key", "cfg[8:13] = key"),
     ("lite_rev_halves", "second half not reversed", "key[7::-1] + key[15:7:-1], 0x87)", "key[7::-1] + key[8:16], 0x87)"),
     ("lite_chal", "challenge halves swapped", "rc[7::-1] + rc[15:7:-1]", "rc[15:7:-1] + rc[7::-1]"),
